@@ -1,4 +1,6 @@
 """C11 The public key derived from a private key equals the generated one."""
+import os
+
 import vlib
 from checks import common
 
@@ -9,6 +11,19 @@ def run(tier, seed):
     ns, nm = (6, 3) if tier == "quick" else (80, 6)
     tr = common.api_traces(chk, bindir, "honest", nseeds=ns, nmsgs=nm)
     n = common.validate_api(chk, tr, key_of=lambda e: "derive:" + e.get("ev", ""))
+    # rare keys: seeds whose t leaves [0,q) before the final reduction, found by search; on each the derived
+    # key must equal the generated one (Layer F judges the few that are recomputed in full)
+    sw = os.path.join(chk.workdir, "sw")
+    from concurrent.futures import ThreadPoolExecutor
+    rel = vlib.build_harness("release")
+    nedge = 80000 if tier == "quick" else 2000000
+    for prof, bdir in (("release", rel), ("checked", bindir)):
+        with ThreadPoolExecutor(max_workers=3) as ex:
+            list(ex.map(lambda s: vlib.drive(bdir, "sweeps", sets=s, seed=seed + 1, nkeys=2000, nedge=nedge if prof == "release" else nedge // 4, nedgefull=1, nsamplers=0,
+                                             out=os.path.join(sw, prof), timeout=7200), (44, 65, 87)))
+        common.validate_f(chk, {s: os.path.join(sw, prof, "sweeps_%d.ndjson" % s) for s in (44, 65, 87)}, nproc=6, chunks_per_set=2,
+                          key_of=lambda m: "derive-rare:" + m["ev"])
+    chk.leg("rare-key search", edge_seeds_searched_per_set=nedge)
     chk.leg("trace validation (Layer A judge)", events=n,
             what="bytes of derived pk (from generated and from round-tripped sk) equal the generated pk's; verdicts of generated / round-tripped / derived pk agree on valid, bit-flipped, wrong-mode and wrong-message signatures")
     common.mc_leg(chk, "MC_API", tier=tier)
